@@ -1762,6 +1762,8 @@ _generations_tuple(PyObject* ro)
 
     l = PyTuple_GET_SIZE(ro);
     generations = PyTuple_New(l);
+    if (generations == NULL)
+        return NULL;
     for (i = 0; i < l; i++) {
         PyObject* generation;
 
@@ -1778,7 +1780,7 @@ _generations_tuple(PyObject* ro)
 static PyObject*
 verify_changed(VB* self, PyObject* ignored)
 {
-    PyObject *t, *ro;
+    PyObject *t, *ro, *generations;
 
     VB_clear(self);
 
@@ -1801,12 +1803,17 @@ verify_changed(VB* self, PyObject* ignored)
     if (ro == NULL)
         return NULL;
 
-    self->_verify_generations = _generations_tuple(ro);
-    if (self->_verify_generations == NULL) {
+    generations = _generations_tuple(ro);
+    if (generations == NULL) {
         Py_DECREF(ro);
         return NULL;
     }
 
+    /* The attribute accesses above run arbitrary code that may have
+       re-entered us and filled the fields again since VB_clear. */
+    Py_CLEAR(self->_verify_generations);
+    Py_CLEAR(self->_verify_ro);
+    self->_verify_generations = generations;
     self->_verify_ro = ro;
 
     Py_INCREF(Py_None);
